@@ -111,9 +111,9 @@ type rWorld struct {
 	seq      int
 	handoffs []rHandoff
 	// delivered[(from,to)] = payload frames delivered so far
-	direct map[[2]uint16][]*rFrame
-	step   int
-	panic_ string
+	direct           map[[2]uint16][]*rFrame
+	step             int
+	panic_           string
 	ackBeforePayload int
 }
 
